@@ -36,7 +36,8 @@ def table(ncol, relations, rs, n=60):
         elif rel == 'near-duplicate':
             v = out[cols[0]] + 1e-9 * z[:, j]
         out[cols[j]] = v
-    return pd.DataFrame(out)
+    # a row index that is neither 0..n-1 nor sorted: nothing may be aligned on it by accident
+    return pd.DataFrame(out, index=rs.permutation(n) * 3 + 100)
 
 
 def config(name, cols):
